@@ -210,9 +210,9 @@ func TestVerifC19Total(t *testing.T) {
 		}
 		return
 	}
-	maxLen := 4
+	maxLen := 5
 	if ev.Thorough() {
-		maxLen = 5
+		maxLen = 6
 	}
 	res.Bounds["max_body_bytes"] = maxLen
 	res.Rule = fmt.Sprintf("(a) every request body of <= %d bytes over the alphabet { } [ ] \" : , a 1 \\ space, sent with POST (and the empty/short ones with GET/PUT/DELETE), (b) every single-subtree mutation (null, \"\", number, negative, float, bool, list, nested object, 1e400, 300-char string) of each of the 8 valid request types, on an empty server and on a server holding one running task; each answer must be exactly one JSON object with code 200/400/500 (405 for other methods) and the handler must not panic; non-trivial = distinct bodies that reach request decoding (valid JSON object)", maxLen)
